@@ -313,17 +313,33 @@ impl<'a> ExecutionEngine<'a> {
     }
 
     fn update_limit(&mut self, limit: Option<usize>, mut output: ExecutionOutput) -> ExecutionOutput {
-        if let Some(row) = output.result_row.as_ref() {
-            self.num_output_rows += row.data.iter().filter(|row| row.any_result()).count();
-        }
-
         if let Some(limit) = limit {
+            if let Some(row) = output.result_row.as_mut() {
+                // Every emitted row counts, and one line can produce several rows (join): keep only what is still allowed
+                let remaining = limit - self.num_output_rows.min(limit);
+                if row.data.len() > remaining {
+                    row.data.truncate(remaining);
+                }
+
+                self.num_output_rows += row.data.len();
+            }
+
             if self.num_output_rows >= limit {
                 output = output.with_reached_limit();
             }
         }
 
         output
+    }
+
+    /// True when a LIMIT clause allows no further output row, in which case no more input should be consumed.
+    pub fn reached_limit(&self) -> bool {
+        match self.statement {
+            Statement::Select(select_statement) => {
+                select_statement.limit.map(|limit| self.num_output_rows >= limit).unwrap_or(false)
+            }
+            _ => false
+        }
     }
 
     pub fn execute_joined_table(&mut self, running: Arc<AtomicBool>) -> ExecutionResult<()> {
